@@ -12,9 +12,10 @@
 //   mode=os|pika      logical threads are plain OS threads (default) or pika tasks (own task ids:
 //                     the other branch of stop_state::remove_callback's thread comparison)
 // Thread ops: lock ; unlock ; set v ; n1 ; nall ; wait ; waitp ; twait ; twaitp
-//   swaitp ; stop     (condition_variable_any only: wait(lock, stop_token, pred) and request_stop on one
-//                     shared stop_source; part of the Lean model since follow-up C07s)
-//   stwaitp           (wait_for(lock, stop_token, d, pred): harness only, not in the Lean model)
+//   swaitp ; stwaitp ; stop
+//                     (condition_variable_any only: wait(lock, stop_token, pred), wait_for(lock, stop_token,
+//                     d, pred) and request_stop on one shared stop_source; part of the Lean model since
+//                     follow-up C07s)
 //
 // Events logged by the harness itself (besides the hook events compiled into pika):
 //   inv.<op> (point)   ul.lock (point) / ul.spin (point, spinning) / ul.acq / ul.rel
